@@ -10,7 +10,7 @@ import shutil
 from . import scn as S
 from . import tlc
 
-TRACE_KINDS = ("SB", "SE", "DE", "CB", "END", "STOP", "FAULT", "LOG")
+TRACE_KINDS = ("SB", "SE", "DE", "CB", "END", "STOP", "FAULT", "LOG", "EG")
 
 
 def project(trace):
